@@ -183,10 +183,18 @@ Section Wrap.
 End Wrap.
 
 (* the concrete comparison of the model: equal values (exact instance) *)
+Lemma xeqb_list (l1 : list xq) : forall l2, forall2b (@neqb Xq) l1 l2 = true -> l1 = l2.
+Proof.
+  induction l1 as [|x l1 IH]; intros [|y l2] H; cbn [forall2b] in H; try discriminate; [reflexivity|].
+  apply andb_true_iff in H. destruct H as [Hx H]. apply xeqb_eq in Hx. destruct Hx as [Hx _].
+  subst y. rewrite (IH l2 H). reflexivity.
+Qed.
+
 Lemma value_eqb_eq (a b : value Xq) : value_eqb a b = true -> a = b.
 Proof.
   destruct a, b; cbn; try discriminate; intro H; try reflexivity;
     match type of H with
+    | forall2b _ _ _ = true => apply xeqb_list in H; congruence
     | xeqb _ _ = true => apply xeqb_eq in H; destruct H as [-> _]; reflexivity
     | Bool.eqb _ _ = true => apply Bool.eqb_prop in H; congruence
     | String.eqb _ _ = true => apply String.eqb_eq in H; congruence
